@@ -73,6 +73,7 @@ type getRec struct {
 	step int
 	seq  uint16
 	n    uint16
+	at   time.Duration // virtual instant of the fetch
 }
 
 type upTrack struct {
@@ -85,6 +86,7 @@ type upTrack struct {
 	kfReq  int
 	gets   []getRec
 	curStp int
+	curNow time.Duration
 }
 
 func (t *upTrack) AddLocal(d conn.DownTrack) error { t.local = d; t.adds++; return nil }
@@ -97,7 +99,7 @@ func (t *upTrack) Label() string                    { return "" }
 func (t *upTrack) Codec() webrtc.RTPCodecCapability { return t.codec }
 func (t *upTrack) GetPacket(seqno uint16, result []byte, nack bool) uint16 {
 	n := t.cache.Get(seqno, result)
-	t.gets = append(t.gets, getRec{t.curStp, seqno, n})
+	t.gets = append(t.gets, getRec{t.curStp, seqno, n, t.curNow})
 	return n
 }
 func (t *upTrack) RequestKeyframe() error { t.kfReq++; return nil }
@@ -262,7 +264,7 @@ func (e *env) run(st *stream, h *History) (o *obs) {
 		}
 		vtime.Set(now)
 		t := o.tracks[p.Track]
-		t.curStp = step
+		t.curStp, t.curNow = step, now
 		t.cache.Store(p.Seq, p.TS, p.KF, p.Marker, p.Raw)
 		if o.cstep[i] < 0 {
 			o.cstep[i] = step
@@ -270,9 +272,11 @@ func (e *env) run(st *stream, h *History) (o *obs) {
 		if o.wstep[i] < 0 {
 			o.wstep[i] = step
 			o.arrive[i] = now
-			if d := now - p.Cap; d > o.maxDelay {
-				o.maxDelay = d
-			}
+		}
+		// every copy counts: a late duplicate can be the packet that
+		// establishes a track's origin
+		if d := now - p.Cap; d > o.maxDelay {
+			o.maxDelay = d
 		}
 		buf := append([]byte(nil), p.Raw...) // the recorder must copy
 		t.local.Write(buf)
